@@ -32,6 +32,9 @@ for e, fns, d in (('h_wake_up', ('urcu_adaptative_wake_up',), 'urcu_adaptative_w
     OBLIGATIONS.append(Ob(name='C02.O5.' + e[2:], harness='C02/waker.c', entry=e, defines=('_LGPL_SOURCE',), unwind=5, min_covers=2, checks=('--bounds-check', '--signed-overflow-check', '--div-by-zero-check'), functions=fns, timeout=300, desc=d))
 # C02.O2: updater half of the sleep/wake handshake inside the registry scans (shared with C01.O4)
 OBLIGATIONS += [o for o in _c01.OBLIGATIONS if o.name.startswith('C01.O4.')]
+# no deadlock between concurrent callers: who waits for whom is fixed by the protocol skeleton of each synchronize_rcu (a qsbr caller
+# goes offline BEFORE queuing itself: a waiter that stayed online would be waited for by the very leader it waits for)
+OBLIGATIONS += [o for o in _c01.OBLIGATIONS if o.name.startswith('C01.O5.')]
 # C02.O1: reader half (store of the reader word -> full barrier -> test of futex / waiting; wake-up iff needed)
 OBLIGATIONS += [o for o in _c01.OBLIGATIONS if o.name.startswith('C01.O2.') and o.name.endswith('.unlock') or o.name.startswith('C01.O3.qsbr.')]
 # the wait queue of merged callers is a wfstack: a wrong 'was non-empty' result of push leaves a grace period without leader (late import, resolved by engine/check.py)
